@@ -1,2 +1,56 @@
-From HS Require Import Base.Prelude Model.Json.
-Theorem C05_placeholder : True. Proof. exact I. Qed.
+(* C05 - the JSON reader decodes every well-formed Haystack-JSON value.
+   Statements only; proofs in Proofs/JsonP.v.  Beside the writer's own spelling
+   (Props/C02.v, the same reader) these are the other legal spellings the
+   property names.
+   PARTIAL: exponent forms of numbers, fractions of other lengths than six
+   digits, Z-suffixed date-times and the grid-level clauses (rows missing / null /
+   omitting columns) are not proved; they are exercised by the independent writer
+   of the correspondence check.  "The caller's object is never modified" cannot be
+   stated about a functional model; it is checked on the implementation only. *)
+From Coq Require Import String.
+From HS Require Import Base.Prelude Gen.JsonData Model.Value Model.Json Proofs.JsonP.
+Open Scope N_scope.
+
+(* both Remove spellings, under either version *)
+Theorem C05_remove : forall pre3,
+  jparse_str pre3 remove2_str = Ok VRemove /\ jparse_str pre3 remove3_str = Ok VRemove.
+Proof. exact rt_remove. Qed.
+
+(* raw JSON numbers and booleans *)
+Theorem C05_raw : forall pre3 tok b,
+  jparse_scalar pre3 (JNum tok) = Ok (VNum NkFin tok tok None) /\
+  jparse_scalar pre3 (JBool b) = Ok (VBool b) /\ jparse_scalar pre3 JNull = Ok VNull.
+Proof. intros. repeat split; reflexivity. Qed.
+
+(* strings without the s: prefix *)
+Theorem C05_bare_string : forall pre3 s, bare s -> jparse_str pre3 s = Ok (VStr s).
+Proof. exact rt_bare. Qed.
+
+(* times without seconds *)
+Theorem C05_time_hm : forall pre3 h mi, h <= 23 -> mi <= 59 ->
+  jparse_str pre3 (104 :: 58 :: d2 h ++ 58 :: d2 mi) = Ok (VTime h mi 0 0).
+Proof. exact rt_time_hm. Qed.
+
+(* n:INF / n:-INF / n:NaN *)
+Theorem C05_nonfinite : forall pre3,
+  jparse_str pre3 (s_ "n:INF") = Ok (VNum NkInf [] [] None) /\
+  jparse_str pre3 (s_ "n:-INF") = Ok (VNum NkNegInf [] [] None) /\
+  jparse_str pre3 (s_ "n:NaN") = Ok (VNum NkNaN [] [] None).
+Proof. exact rt_nonfinite. Qed.
+
+(* numbers with and without unit (fixed-point spelling) *)
+Theorem C05_num : forall pre3 tok u, f6_shape tok ->
+  jparse_str pre3 (110 :: 58 :: tok ++ match u with Some x => 32 :: x | None => [] end)
+  = Ok (VNum NkFin tok tok u).
+Proof. exact rt_num. Qed.
+
+(* concrete instances of the remaining clauses, evaluated on the model *)
+Example C05_examples :
+  (* exponent form with unit *)
+  jparse_str false (s_ "n:1.5e+3 kW") = Ok (VNum NkFin (s_ "1.5e+3") (s_ "1.5e+3") (Some (s_ "kW"))) /\
+  (* a fraction of three digits *)
+  jparse_str false (s_ "h:07:08:09.250") = Ok (VTime 7 8 9 250000) /\
+  (* date-time without zone name, and with Z *)
+  jparse_str false (s_ "t:2020-01-02T03:04:05+01:00") = Ok (VDateTimeRaw (s_ "2020-01-02T03:04:05+01:00") None) /\
+  jparse_str false (s_ "t:2020-01-02T03:04:05Z UTC") = Ok (VDateTimeRaw (s_ "2020-01-02T03:04:05Z") (Some (s_ "UTC"))).
+Proof. vm_compute. repeat split. Qed.
